@@ -15,6 +15,9 @@ def run(ctx):
     # branches in later invocations must not re-enter a step whose outcome the backend holds
     from harness import comp_executor
     comp_executor.run_prop(ctx, "C01", n_quick=120, n_thorough=3000)
+    # in-process re-submission of a branch that already completed work, with paginated responses and failing page fetches
+    for i in range(ctx.scale(150, 3000)):
+        comp_executor.one(ctx, "C01", comp_executor.gen_resubmit_rich(ctx.rng), ctx.rng.randrange(1 << 30), component="executor.resubmit")
 
 
 def search(ctx):
